@@ -105,6 +105,9 @@ def c_part(g, read, strip_comments):
     raises = re.search(r"PyErr_SetString\(\s*(\w+)", b)
     emit_str("c_iter_first_raises", raises.group(1) if raises else "?", "BPlusTreeIterator_next: what the first test raises")
     emit_str("c_iter_next_src", re.sub(r"\s+", " ", b).strip() if b else "?", "BPlusTreeIterator_next: the whole body, comments stripped, whitespace normalised (the model's `iterNext` transcribes it)")
+    for nm in ("node_find_position", "fast_compare_lt", "fast_compare_eq"):
+        bb = c_fn(node, nm)
+        emit_str("c_src_" + nm, re.sub(r"\s+", " ", bb).strip() if bb else "?", "%s (node_ops.c): the whole body, comments stripped, whitespace normalised" % nm)
     for nm in ("BPlusTree_iter", "BPlusTree_keys", "BPlusTree_items", "BPlusTreeIterator_dealloc"):
         bb = c_fn(mod, nm)
         emit_str("c_src_" + nm, re.sub(r"\s+", " ", bb).strip() if bb else "?", "%s: the whole body, comments stripped, whitespace normalised" % nm)
